@@ -134,4 +134,14 @@ def check(ctx):
                msg="the identifier allocator does not look at %s: after the counter wraps, a new PUBLISH can be written with the identifier of an "
                    "exchange whose PUBREL is still unanswered" % sorted(need - regs))
     ctx.count("pubrel_creation_sites", nrel)
+    # Q-MODE: "the exchange ends, and the identifier becomes free, only on PUBCOMP or when the session is discarded": the loss path
+    # discards under the recorded session mode, so that mode must be the one connect() asked for from the moment connect() is accepted
+    from ..lifecycle import lifecycle
+    for cls in classes:
+        lc = lifecycle(a, cls)
+        ctx.ob("Q-MODE", "%s the session mode is recorded when connect() is accepted" % cls_short(cls.qual), lc.clean_at_connect,
+               where=where(lc.clean_event) if lc.clean_event is not None else cls.module.path,
+               function=lc.clean_event.func if lc.clean_event is not None else "", construct="session-mode/recorded-at-connect",
+               msg="self.%s is not assigned from CONNECT's cleanStart on every accepting path of connect(): a persistent session's connection "
+                   "lost during the handshake is cleaned up as a clean session, which ends a QoS 2 exchange without PUBCOMP" % lc.clean)
     ctx.floor("PUBREL creation events", nrel, 2)
